@@ -62,11 +62,11 @@ def showOpt (o : Option Int) : String := match o with | some v => toString v | n
 def stepLine' (segs : List SegRef) (ws : List String) : List SegRef × String :=
   match ws with
   | ["reset"] => ([], "reset")
-  | ["seg", topic, part, a, b, c, d, recs] =>
-    match topic.toNat?, part.toInt?, optI a, optI b, optI c, optI d with
-    | some t, some p, some a, some b, some c, some d =>
-      (segs ++ [⟨t, p, a, b, c, d, parseRecs segs.length p recs⟩], "seg")
-    | _, _, _, _, _, _ => (segs, "bad-op")
+  | ["seg", topic, part, a, b, c, d, lm, recs] =>
+    match topic.toNat?, part.toInt?, optI a, optI b, optI c, optI d, optI lm with
+    | some t, some p, some a, some b, some c, some d, some lm =>
+      (segs ++ [⟨t, p, a, b, c, d, parseRecs segs.length p recs, lm⟩], "seg")
+    | _, _, _, _, _, _, _ => (segs, "bad-op")
   | "select" :: _ => match mkQuery ws with
     | some q => (segs, showRows (select q segs))
     | none => (segs, "bad-op")
@@ -78,18 +78,19 @@ def stepLine' (segs : List SegRef) (ws : List String) : List SegRef × String :=
 def stepLine (d : DS) (ws : List String) : DS × String :=
   match ws with
   | ["reset"] => ({}, "reset")
-  | ["obj", topic, part, base, flags, recs] =>
-    match topic.toNat?, part.toInt?, base.toInt? with
-    | some t, some p, some b =>
+  | ["obj", topic, part, base, flags, lm, recs] =>
+    match topic.toNat?, part.toInt?, base.toInt?, optI lm with
+    | some t, some p, some b, some lm =>
       let complete := flags.contains 'k' && flags.contains 'i' && flags.contains 'm'
-      let o : Obj := ⟨t, p, b, complete, parsePairs recs⟩
+      -- an object without an explicit time is listed with the endpoint's default (2024-01-01)
+      let o : Obj := ⟨t, p, b, complete, parsePairs recs, some (lm.getD 1704067200000)⟩
       if flags.contains 'k' || flags.contains 'i' then ({ d with objs := d.objs ++ [o] }, "obj") else (d, "obj")
-    | _, _, _ => (d, "bad-op")
-  | ["list", ti] =>
+    | _, _, _, _ => (d, "bad-op")
+  | ["list", ti, _, _] =>
     let sorted := sortObjs (d.objs.filter (·.complete))
     let refs := listCompleted d.objs (ti = "1")
     let parts := (refs.zip sorted).map fun (r, o) =>
-      s!"{r.topic}/{r.partition}/{o.base}/{showOpt r.minOffset}/{showOpt r.maxOffset}/{showOpt r.minTs}/{showOpt r.maxTs}"
+      s!"{r.topic}/{r.partition}/{o.base}/{showOpt r.minOffset}/{showOpt r.maxOffset}/{showOpt r.minTs}/{showOpt r.maxTs}/{showOpt r.lastModified}"
     ({ d with segs := refs }, if parts.isEmpty then "list -" else "list " ++ joinWith ";" parts)
   | _ =>
     let (segs, out) := stepLine' d.segs ws
